@@ -14,21 +14,38 @@ Proof. exact Proofs.C09Recon.c09_reconcile_single. Qed.
 Print Assumptions C09_reconcile_single.
 
 (* reconcile.rs, all languages: inside dom_C09 every name mentioned by the type a back end receives for
-   a type position of the program is either an untouched generic parameter of the owner, or the
-   identifier of a typeshared item picked as the table of Spec/C09Spec.v says (renamed for a Simple id
-   outside consts, original for the id of a Generic and for const types) *)
+   a type position of the program - field, payload, alias target and (since the repair of reconcile_aliases)
+   const type - is either an untouched generic parameter of the owner, or the RENAMED identifier of a
+   typeshared item, whether it is written as a Simple id or (since the repair of check_type) as the id of a
+   Generic: the table c09_type_ref_which of Spec/C09Spec.v is constantly C9Ren *)
 Theorem C09_reconciled_mentions :
   forall (pd : parsed) (L : lang) (pfx : str), dom_C09 L pfx pd = true ->
   forall (tp : c09_tpos) (form : c09_form) (i' : str), In tp (c09_tposs pd) ->
-    In (form, i') (c09_type_ids (match c9t_pos tp with
-                                 | C9Const => c9t_type tp
-                                 | _ => check_type [] (Proofs.C09Recon.c09_rn pd) [] (c9t_type tp)
-                                 end)) ->
+    In (form, i') (c09_type_ids (check_type [] (Proofs.C09Recon.c09_rn pd) [] (c9t_type tp))) ->
     (In i' (c9t_generics tp) /\ In (form, i') (c09_type_ids (c9t_type tp))) \/
     (exists i e, In (form, i) (c09_type_ids (c9t_type tp)) /\ c09_lookup pd i = Some e /\
                  i' = Proofs.C09Common.c09_pick (c09_type_ref_which form (c9t_pos tp)) (c9e_id e)).
 Proof. exact Proofs.C09Recon.c09_mention. Qed.
 Print Assumptions C09_reconciled_mentions.
+
+(* ... said without the table: the mentioned name is the item's renamed id *)
+Theorem C09_reconciled_mentions_renamed :
+  forall (pd : parsed) (L : lang) (pfx : str), dom_C09 L pfx pd = true ->
+  forall (tp : c09_tpos) (form : c09_form) (i' : str), In tp (c09_tposs pd) ->
+    In (form, i') (c09_type_ids (check_type [] (Proofs.C09Recon.c09_rn pd) [] (c9t_type tp))) ->
+    (In i' (c9t_generics tp) /\ In (form, i') (c09_type_ids (c9t_type tp))) \/
+    (exists i e, In (form, i) (c09_type_ids (c9t_type tp)) /\ c09_lookup pd i = Some e /\ i' = renamed (c9e_id e)).
+Proof. exact Proofs.C09Recon.c09_mention. Qed.
+Print Assumptions C09_reconciled_mentions_renamed.
+
+(* the consts of the reconciled program are the consts of the program with their types reconciled *)
+Theorem C09_reconciled_consts :
+  forall pd : parsed, p_imports pd = [] -> forall c' : rconst,
+    In c' (p_consts (Proofs.C09Recon.c09_reconciled pd)) <->
+    exists c, In c (p_consts pd) /\
+              c' = {| cid := cid c; ctype := check_type [] (Proofs.C09Recon.c09_rn pd) [] (ctype c); cvalue := cvalue c |}.
+Proof. exact Proofs.C09Recon.c09_consts'. Qed.
+Print Assumptions C09_reconciled_consts.
 
 (* all six languages, the language-independent half: an observation in which every definition is
    declared under the table's name and every reference is a generic parameter of its owner, the
@@ -260,19 +277,56 @@ Theorem C09_no_rename_no_class :
 Proof. exact Proofs.C09Witness.c09_no_rename_known. Qed.
 Print Assumptions C09_no_rename_no_class.
 
+(* regression pins of the two classes repaired in core/src/reconcile.rs (former `_refuted` witnesses, same
+   programs).  c09_pinned L pfx acrs pd out r := dom_C09 L pfx pd /\ known_C09 L pfx acrs pd = None /\
+   out = Ok fd with r among the references of the file /\ good_C09 of the whole file *)
+
+(* struct S (SRen); struct G<T> (GRen) { t: T }; struct H { g: G<S>, .. }: formerly C09-generic-ref
+   (`g: G<SRen>` against `interface GRen<T>`); now `g: GRen<SRen>` *)
+Theorem C09_generic_ref_fixed :
+  Proofs.C09Witness.c09_pinned TypeScript [] [] Proofs.C09Witness.w_prog
+    (ts_file_decls uc_exec Proofs.C09Witness.w_ts (Proofs.C09Recon.c09_reconciled Proofs.C09Witness.w_prog))
+    {| c9_in := lit "H"; c9_pos := C9Field; c9_name := lit "GRen" |} = true.
+Proof. exact Proofs.C09Witness.c09_generic_ref_fixed. Qed.
+Print Assumptions C09_generic_ref_fixed.
+
+Theorem C09_generic_ref_fixed_python :
+  Proofs.C09Witness.c09_pinned Python [] [] Proofs.C09Witness.w_prog
+    (py_file_decls uc_exec {| py_type_mappings := []; py_no_version_header := true; py_version := [] |}
+                   (Proofs.C09Recon.c09_reconciled Proofs.C09Witness.w_prog))
+    {| c9_in := lit "H"; c9_pos := C9Field; c9_name := lit "GRen" |} = true.
+Proof. exact Proofs.C09Witness.c09_generic_ref_fixed_python. Qed.
+Print Assumptions C09_generic_ref_fixed_python.
+
+(* the same under the Swift prefix OP: `let g: OPGRen<OPSRen>` *)
+Theorem C09_generic_ref_fixed_swift :
+  Proofs.C09Witness.c09_pinned Swift (lit "OP") [] Proofs.C09Witness.w_prog
+    (sw_file_decls uc_exec {| sw_prefix := lit "OP"; sw_type_mappings := []; sw_default_decorators := []; sw_default_generic_constraints := [];
+                              sw_codablevoid_constraints := []; sw_no_version_header := true; sw_version := [] |}
+                   (Proofs.C09Recon.c09_reconciled Proofs.C09Witness.w_prog))
+    {| c9_in := lit "OPH"; c9_pos := C9Field; c9_name := lit "OPGRen" |} = true.
+Proof. exact Proofs.C09Witness.c09_generic_ref_fixed_swift. Qed.
+Print Assumptions C09_generic_ref_fixed_swift.
+
+(* type A (ARen) = u32; const LIMIT: A = 5: formerly C09-const-type (`export const LIMIT: A` against
+   `export type ARen`); now `LIMIT: ARen` *)
+Theorem C09_const_type_fixed :
+  Proofs.C09Witness.c09_pinned TypeScript [] [] Proofs.C09Witness.w_prog_const
+    (ts_file_decls uc_exec Proofs.C09Witness.w_ts (Proofs.C09Recon.c09_reconciled Proofs.C09Witness.w_prog_const))
+    {| c9_in := lit "LIMIT"; c9_pos := C9Const; c9_name := lit "ARen" |} = true.
+Proof. exact Proofs.C09Witness.c09_const_type_fixed. Qed.
+Print Assumptions C09_const_type_fixed.
+
+Theorem C09_const_type_fixed_python :
+  Proofs.C09Witness.c09_pinned Python [] [] Proofs.C09Witness.w_prog_const
+    (py_file_decls uc_exec {| py_type_mappings := []; py_no_version_header := true; py_version := [] |}
+                   (Proofs.C09Recon.c09_reconciled Proofs.C09Witness.w_prog_const))
+    {| c9_in := lit "LIMIT"; c9_pos := C9Const; c9_name := lit "ARen" |} = true.
+Proof. exact Proofs.C09Witness.c09_const_type_fixed_python. Qed.
+Print Assumptions C09_const_type_fixed_python.
+
 (* refutation witnesses: on the faithful model each recorded class has a program inside dom_C09 whose
    generated file fails the judgement at a reference that the class explains *)
-Theorem C09_generic_ref_refuted :
-  Proofs.C09Witness.c09_witness TypeScript [] [] Proofs.C09Witness.w_prog
-    (ts_file_decls uc_exec Proofs.C09Witness.w_ts (Proofs.C09Recon.c09_reconciled Proofs.C09Witness.w_prog)) "C09-generic-ref" = true.
-Proof. exact Proofs.C09Witness.c09_generic_ref_refuted. Qed.
-Print Assumptions C09_generic_ref_refuted.
-
-Theorem C09_const_type_refuted :
-  Proofs.C09Witness.c09_witness TypeScript [] [] Proofs.C09Witness.w_prog_const
-    (ts_file_decls uc_exec Proofs.C09Witness.w_ts (Proofs.C09Recon.c09_reconciled Proofs.C09Witness.w_prog_const)) "C09-const-type" = true.
-Proof. exact Proofs.C09Witness.c09_const_type_refuted. Qed.
-Print Assumptions C09_const_type_refuted.
 
 Theorem C09_kotlin_enum_parent_refuted :
   Proofs.C09Witness.c09_witness Kotlin (lit "KP") [] Proofs.C09Witness.w_prog
